@@ -6,11 +6,16 @@ from fractions import Fraction
 import numpy as np
 
 import arch_util as au
+import py2v_arch
 
 CONFIG = {
     "cone": ["Base/ListUtil.v", "Base/QUtil.v", "Base/FirstArgmax.v", "Model/Store.v", "Proofs/StoreProofs.v", "Model/Archive.v",
-             "Proofs/ArchiveProofs.v", "Proofs/C01Proofs.v", "Proofs/C02Proofs.v", "Properties/C05.v"],
-    "trusted": ["Model/Archive.v (see C01)", "libm pow is not modelled: (1-a)^k is exact repeated multiplication in the model",
+             "Proofs/ArchiveProofs.v", "Proofs/C01Proofs.v", "Proofs/C02Proofs.v", "Generated/TransGen.v", "Refine/TransRefine.v", "Properties/C05.v"],
+    "extra_property_files": ["Refine/TransRefine.v"],
+    "trusted": ["harness/py2v_arch.py: fail-closed ast translator of single_entry_with_threshold and of the ratio/new_threshold expressions of "
+                "_compute_thresholds into Generated/TransGen.v on every run; Refine/TransRefine.v proves them equal to the model for all arguments "
+                "(the numpy-vectorised batch transform itself is tied by the correspondence run only)",
+                "Model/Archive.v (see C01)", "libm pow is not modelled: (1-a)^k is exact repeated multiplication in the model",
                 "floating point: the theorems are exact-arithmetic; the implementation's thresholds are compared step-wise against the exact "
                 "formula within 16 (float64) / 32 (float32) ulp of the magnitudes involved, decisions and untouched thresholds exactly; an "
                 "exact stream (dyadic inputs, learning rate 1/2, add_single only) is compared bit for bit over whole histories"],
@@ -20,7 +25,7 @@ CONFIG = {
                   "t <= threshold' <= best accepted objective, stored objective > t; C05_single, C05_a0_frozen, C05_history_monotone "
                   "(induction over histories). Exact arithmetic over Q; the float layer is decided by the step-wise correspondence.",
     "level_note": "Trusted: Coq kernel; extraction + driver; model tied by sampling; harness; float rounding handled by tolerance as described. No axioms.",
-    "technique": "Rocq/Coq proof over Q (nra/lra) + step-wise model-vs-implementation simulation + bit-exact dyadic stream",
+    "technique": "source-derived fragments (py2v translator + refinement lemmas) + Rocq/Coq proof over Q (nra/lra) + step-wise model-vs-implementation simulation + bit-exact dyadic stream",
     "design_ref": "DESIGN.md section 5, C05",
 }
 
@@ -91,6 +96,7 @@ def nontrivial(case):
 
 
 def check(rep, tier, seed, driver):
+    py2v_arch.report(rep)
     rng = random.Random(seed)
     n = 300 if tier == "quick" else 6000
     rep.rule = ("(a) CMA-MAE GridArchive/CVTArchive(kd,brute,chunk), float32/float64, learning rates {0,1/4,1/2,3/4,1,0.1,0.3}, step-wise "
